@@ -54,6 +54,10 @@ type Ctx struct {
 	Selftest    map[string]interface{}
 	cache       map[string]*Interp
 	voc         *vocab
+	Verif       string // verification root: known findings, seeded corpus
+	Out         string // receives evidence/
+	Summary     bool   // print a SUMMARY line (child runs of the thorough tier)
+	ChildViol   []sumViol
 	postConn    map[*types.Func]bool
 	passArg     map[*types.Func]int
 }
@@ -169,7 +173,8 @@ type evidence struct {
 
 // Finish applies floors, matches known findings, writes evidence and violation files, prints the
 // interface lines and returns the exit code.
-func (c *Ctx) Finish(verif string, seed int, start time.Time, explanation string, extraCov map[string]interface{}) int {
+func (c *Ctx) Finish(seed int, start time.Time, explanation string, extraCov map[string]interface{}) int {
+	verif, out := c.Verif, c.Out
 	// floors
 	for _, st := range c.Rules {
 		if st.Instances < st.Floor {
@@ -184,7 +189,7 @@ func (c *Ctx) Finish(verif string, seed int, start time.Time, explanation string
 		fmt.Printf("cannot read known_findings.json: %v\n", err)
 		known = &KnownFile{}
 	}
-	violDir := filepath.Join(verif, "evidence", "violations")
+	violDir := filepath.Join(out, "evidence", "violations")
 	os.MkdirAll(violDir, 0o755)
 	// remove stale violation files of this property
 	if old, _ := filepath.Glob(filepath.Join(violDir, c.Prop+"-*.json")); len(old) > 0 {
@@ -192,6 +197,7 @@ func (c *Ctx) Finish(verif string, seed int, start time.Time, explanation string
 			os.Remove(f)
 		}
 	}
+	var sumV []sumViol
 	nviol := 0
 	nknown := 0
 	discharged := 0
@@ -223,6 +229,7 @@ func (c *Ctx) Finish(verif string, seed int, start time.Time, explanation string
 			continue
 		}
 		nviol++
+		sumV = append(sumV, sumViol{Rule: o.Rule, Construct: o.Construct, Status: o.Status, Pos: o.Pos, Detail: o.Detail})
 		path := filepath.Join(violDir, fmt.Sprintf("%s-%d.json", c.Prop, nviol))
 		b, _ := json.MarshalIndent(o, "", " ")
 		os.WriteFile(path, b, 0o644)
@@ -272,7 +279,7 @@ func (c *Ctx) Finish(verif string, seed int, start time.Time, explanation string
 		"obligations":         len(c.Obls),
 		"discharged":          discharged,
 		"known_findings":      nknown,
-		"checker_cmd":         fmt.Sprintf("/verif/check.sh %s %s", c.Prop, c.Tier),
+		"checker_cmd":         fmt.Sprintf("%s/check.sh %s %s", c.Verif, c.Prop, c.Tier),
 		"trusted_base":        []string{"go/types, go/packages, go/ssa of golang.org/x/tools v0.29.0", "the reference tables frozen in the checker (DESIGN.md section 3)", "go toolchain parser/type-checker"},
 		"rules":               c.Rules,
 		"not_decided":         c.NotDecided,
@@ -294,8 +301,8 @@ func (c *Ctx) Finish(verif string, seed int, start time.Time, explanation string
 		ev.Assumptions = []string{}
 	}
 	b, _ := json.MarshalIndent(ev, "", " ")
-	os.MkdirAll(filepath.Join(verif, "evidence"), 0o755)
-	if err := os.WriteFile(filepath.Join(verif, "evidence", c.Prop+".json"), b, 0o644); err != nil {
+	os.MkdirAll(filepath.Join(out, "evidence"), 0o755)
+	if err := os.WriteFile(filepath.Join(out, "evidence", c.Prop+".json"), b, 0o644); err != nil {
 		fmt.Printf("cannot write evidence: %v\n", err)
 		return 2
 	}
@@ -304,8 +311,37 @@ func (c *Ctx) Finish(verif string, seed int, start time.Time, explanation string
 	for _, st := range c.Rules {
 		fmt.Printf("  rule %-22s %-9s instances=%d floor=%d paths=%d\n", st.Name, st.Verdict, st.Instances, st.Floor, st.Paths)
 	}
+	if c.Summary {
+		fmt.Printf("SUMMARY %s\n", mustJSON(runSummary{Prop: c.Prop, Obligations: len(c.Obls), Discharged: discharged, Known: nknown, Violations: sumV, Rules: c.Rules}))
+	}
 	if nviol > 0 {
 		return 1
 	}
 	return 0
+}
+
+// runSummary is the machine-readable result of one property run (child runs of the thorough tier).
+type runSummary struct {
+	Prop        string      `json:"prop"`
+	Obligations int         `json:"obligations"`
+	Discharged  int         `json:"discharged"`
+	Known       int         `json:"known"`
+	Violations  []sumViol   `json:"violations"`
+	Rules       []*RuleStat `json:"rules,omitempty"`
+}
+
+type sumViol struct {
+	Rule      string `json:"rule"`
+	Construct string `json:"construct"`
+	Status    string `json:"status"`
+	Pos       string `json:"pos"`
+	Detail    string `json:"detail"`
+}
+
+func mustJSON(v interface{}) string {
+	b, err := json.Marshal(v)
+	if err != nil {
+		return "{}"
+	}
+	return string(b)
 }
